@@ -89,7 +89,7 @@ func rootGlobal(v ssa.Value) *ssa.Global {
 // Everything under the module of the code under test is always allowed.
 var pureInitPrefixes = []string{
 	"strings", "strconv", "unicode", "unicode/utf8", "unicode/utf16", "sort", "slices", "maps", "cmp", "errors", "bytes",
-	"regexp", "regexp/syntax", "container/list", "math", "math/bits", "net/http", "net/http/internal", "net/http/internal/ascii", "net/textproto", "mime", "mime/multipart", "path", "path/filepath",
+	"regexp", "regexp/syntax", "container/list", "math", "math/bits", "net/http", "net/http/internal", "net/http/internal/ascii", "net/textproto", "net/mail", "mime", "mime/multipart", "path", "path/filepath",
 	"encoding/base64", "encoding/hex", "html", "net/url", "go/", "text/", "iter", "io", "bufio", "fmt", "math/big",
 	"github.com/", "gopkg.in/", "golang.org/x/", "go.yaml.in/",
 }
